@@ -47,7 +47,10 @@ def accessors(cls):
         doc = (getattr(attr, "__doc__", None) or "")
         if not doc and isinstance(attr, property) and attr.fget is not None:
             doc = attr.fget.__doc__ or ""
-        (creating if (CREATING.search(doc) or name in EXTRA_CREATING) else read).append(name)
+        # predicates (has_*/is_*) are read whatever their docstring says about *other* accessors (has_notes_slide's mentions the side effect
+        # of notes_slide): the property names them as part of the read surface
+        is_pred = name.startswith("has_") or name.startswith("is_")
+        (creating if ((CREATING.search(doc) and not is_pred) or name in EXTRA_CREATING) else read).append(name)
     _doc_cache[cls] = (read, creating)
     return _doc_cache[cls]
 
@@ -74,6 +77,18 @@ def traverse(prs, group: str, stats: dict, limit: int = 4000, only: set | None =
             continue
         read, creating = accessors(cls)
         for name in creating:
+            guard = GUARDED.get(name)
+            if guard is not None and hasattr(cls, guard):
+                # a creating accessor whose own predicate says the content already exists creates nothing: reading it is a read
+                try:
+                    if getattr(obj, guard):
+                        v = getattr(obj, name)
+                        n += 1
+                        stats.setdefault("reads", set()).add("%s.%s" % (cls.__name__, name))
+                        push(v, stack)
+                        continue
+                except Exception:
+                    pass
             stats.setdefault("excluded", set()).add("%s.%s" % (cls.__name__, name))
         nav_only = not in_group(obj, group)
         for name in read:
@@ -108,6 +123,7 @@ def traverse(prs, group: str, stats: dict, limit: int = 4000, only: set | None =
 NAV = {"slides", "slide_layouts", "slide_masters", "shapes", "placeholders", "text_frame", "paragraphs", "runs", "table", "rows", "columns",
        "cells", "chart", "plots", "series", "categories", "slide_layout", "slide_master", "has_text_frame", "has_table", "has_chart",
        "notes_slide", "has_notes_slide", "image", "font", "core_properties", "points", "value_axis", "category_axis", "legend"}
+GUARDED = {"notes_slide": "has_notes_slide", "chart_title": "has_title", "axis_title": "has_title", "legend": "has_legend"}
 # NAV entries that are documented as creating are still excluded by `accessors` (e.g. notes_slide); has_* guards keep text_frame/chart/table safe
 
 
@@ -250,3 +266,51 @@ def culprits(path: str, group: str, reads: list[str]) -> list[str]:
         if changed({acc}) and not (acc.split(".")[1] in NAV and not changed({acc + "#none"})):
             out.append(acc)
     return out
+
+
+def gen_decks(outdir: str) -> list[str]:
+    """Decks generated through the public API: one slide per layout of the default template (unpopulated placeholders of every
+    kind), and one slide holding every shape kind the API can add, with a notes page."""
+    import os
+    import pptx
+    from pptx.chart.data import CategoryChartData
+    from pptx.enum.chart import XL_CHART_TYPE
+    from pptx.enum.shapes import MSO_CONNECTOR, MSO_SHAPE
+    from pptx.util import Emu
+    os.makedirs(outdir, exist_ok=True)
+    out = []
+    prs = pptx.Presentation()
+    for lay in prs.slide_layouts:
+        prs.slides.add_slide(lay)
+    p = os.path.join(outdir, "gen-layouts.pptx")
+    prs.save(p)
+    out.append(p)
+    prs = pptx.Presentation()
+    s = prs.slides.add_slide(prs.slide_layouts[6])
+    sh = s.shapes
+    sh.add_shape(MSO_SHAPE.ROUNDED_RECTANGLE, Emu(10), Emu(20), Emu(300000), Emu(200000))
+    sh.add_textbox(Emu(0), Emu(0), Emu(300000), Emu(200000)).text_frame.text = "a\nb"
+    sh.add_connector(MSO_CONNECTOR.STRAIGHT, Emu(5), Emu(6), Emu(700), Emu(800))
+    img = os.path.join(os.path.dirname(corpus_decks()[0]), "python-icon.jpeg")
+    if os.path.exists(img):
+        sh.add_picture(img, Emu(1), Emu(2))
+    sh.add_table(2, 2, Emu(0), Emu(0), Emu(900000), Emu(400000))
+    cd = CategoryChartData()
+    cd.categories = ["x", "y"]
+    cd.add_series("s", (1, 2))
+    sh.add_chart(XL_CHART_TYPE.COLUMN_CLUSTERED, Emu(0), Emu(0), Emu(900000), Emu(900000), cd)
+    g = sh.add_group_shape()
+    g.shapes.add_shape(MSO_SHAPE.OVAL, Emu(10), Emu(20), Emu(300), Emu(200))
+    fb = sh.build_freeform(Emu(10), Emu(10))
+    fb.add_line_segments([(Emu(100), Emu(10)), (Emu(100), Emu(100))])
+    fb.convert_to_shape()
+    s.notes_slide.notes_text_frame.text = "note"
+    p = os.path.join(outdir, "gen-shapes.pptx")
+    prs.save(p)
+    out.append(p)
+    return out
+
+
+def corpus_decks():
+    from mbt import corpus
+    return corpus.decks()
